@@ -164,6 +164,11 @@ def gen_literals(run):
         if isinstance(out, dict):
             raise core.MachineryError(out['harness_error'])
         for rec, obs in zip(chunk_recs, out):
+            if obs.get('o') == 'big':
+                run.judge({'in': {'literal': rec['text']}, 'ideal': obs['want'], 'obs': obs['got'], 'kind': 'literal'}, obs['ok'],
+                          clause=f"literal {rec['text']} evaluates to {obs['got']}, the double nearest to the decimal is {obs['want']}", part='literal')
+                run.traces_validated += 1
+                continue
             ideal = absval.norm_dec(rec['m'], rec['s']) if rec['s'] >= 0 else {'k': 'dec', 'm': rec['m'] * 10 ** (-rec['s']), 's': 0}
             ok = obs['o'] == 'value' and obs['v'].get('k') in ('dec',) and absval.same(ideal, obs['v'])
             case = {'in': {'literal': rec['text']}, 'ideal': absval.show(ideal), 'obs': absval.show(obs['v']) if obs['o'] == 'value' else obs, 'kind': 'literal'}
@@ -175,7 +180,17 @@ def gen_literals(run):
 def _lit_batch(recs):
     try:
         res = repo.eval_formulas(['=' + r['text'] for r in recs], consts={}, timeout=20)
-        return [absval.obs_outcome(k, p, mode='dec') for k, p in res]
+        out = []
+        for rec, (k, p) in zip(recs, res):
+            o = absval.obs_outcome(k, p, mode='dec')
+            if rec['s'] < -6 and k == 'val' and isinstance(p, (int, float)) and not isinstance(p, bool):
+                # beyond the range of the abstract values (32-bit limbs): decided here, exactly - the literal denotes the double nearest
+                # to m * 10^-s; an exact integer that is not that double (10**23) is a different number
+                from fractions import Fraction
+                want = float(Fraction(rec['m']) * Fraction(10) ** (-rec['s']))
+                o = {'o': 'big', 'ok': Fraction(p) == Fraction(want), 'got': repr(p), 'want': repr(want)}
+            out.append(o)
+        return out
     except Exception as e:
         return {'harness_error': f'{type(e).__name__}: {e}'}
 
